@@ -156,3 +156,18 @@ fn wrap_lzma2_in_xz_small(payload: &[u8], content: &[u8], check_id: u8) -> Vec<u
     };
     build_xz(&plan).bytes
 }
+
+/// Development aid: how long do the adversarial symbols get?
+pub fn long_symbol_report() {
+    let mut hist = [0u32; 24];
+    for i in 0..200u64 {
+        let mut t = Tape::random(i);
+        let b = crate::props::common::gen_long_symbol(&mut t, 0);
+        let m = b.max_symbol_bytes().min(23);
+        hist[m as usize] += 1;
+        if i < 3 {
+            println!("out={} payload={} max_symbol_bytes={}", b.expect.len(), b.payload.len(), b.max_symbol_bytes());
+        }
+    }
+    println!("max-symbol-bytes histogram: {:?}", hist);
+}
